@@ -35,7 +35,11 @@ inductive Ev where
 /-- The documented five-state protocol: OK → Issue on an error; Issue → OK on a success;
     Issue → Reconnect when no success occurred within `t1`; Reconnect → OK on a successful reconnect;
     Reconnect → Error when not successful within `t2`; Error → OK on a successful reconnect;
-    Disconnected → OK on connect.  Every other (state, event) pair keeps the state. -/
+    Disconnected → OK on connect.  Every other (state, event) pair keeps the state.
+    Reading of the text: a time-out ("if no success within …") takes effect at the next read/write call
+    after it elapsed — the decorator has no timer of its own; `rwFail d` / `rwNoContact d` carry the
+    elapsed time of that call.  That reconnects do get attempted, and succeed as soon as the hardware
+    accepts them, is section 4 (`recovers_within`, `never_stuck`). -/
 def docNext (t1 t2 : Nat) : RState → Ev → RState
   | .disconnected, .connectOk => .ok
   | .ok, .rwFail _ => .issue
